@@ -403,25 +403,37 @@ def gen_dop(rng, kind, ddf, frames, nshuffles):
     agree = valid and parts_ok and all(getattr(f, '_geometry', None) == act for f in frames)
     has_v = 'v' in cols and 'v' not in gcols
     op = {'op': kind}
+    # once a shuffle has happened the active column is not dropped / renamed any more: Dask's
+    # optimizer may move a projection below the shuffle, and what a *stale* _geometry becomes
+    # then depends on the optimizer (states with a valid active column are not affected)
+    keep_act = nshuffles > 0
     if kind == 'DSubset':
         k = rng.randint(1, len(cols))
         names = rng.sample(cols, k)
-        if act in cols and act not in names and rng.random() < 0.7:
+        if act in cols and act not in names and (keep_act or rng.random() < 0.7):
             names.append(act)
         op['names'] = names
     elif kind == 'DMask':
         if not has_v:
             return None
         op['k'] = rng.randint(0, 5)
+    elif kind == 'DLocAll':
+        # a label slice over the whole (known, sorted) index range: every partition is kept
+        if not ddf.known_divisions:
+            return None
+        try:
+            op.update(lo=int(ddf.divisions[0]), hi=int(ddf.divisions[-1]))
+        except (TypeError, ValueError):
+            return None
     elif kind == 'DAssign':
         op['name'] = next(x for x in ['n1', 'n2', 'n3', 'n4', 'n5', 'n6', 'n7'] if x not in cols)
     elif kind == 'DDrop':
-        cand = [c for c in cols if c != act] if rng.random() < 0.8 else cols
+        cand = [c for c in cols if c != act] if keep_act or rng.random() < 0.8 else cols
         if not cand:
             return None
         op['names'] = [rng.choice(cand)]
     elif kind == 'DRename':
-        pool = [c for c in cols if c != act] if rng.random() < 0.8 else cols
+        pool = [c for c in cols if c != act] if keep_act or rng.random() < 0.8 else cols
         if not pool:
             return None
         op.update(old=rng.choice(pool), new=next(x for x in ['r1', 'r2', 'r3', 'r4', 'r5', 'r6', 'r7'] if x not in cols))
@@ -766,6 +778,7 @@ def run(rep):
 
     corpus(rep)
     mark('parquet-coq+corpus')
+    rep.extra['dask_compute_assertions'] = U.COMPUTE_ASSERTIONS[0]
 
 
 def corpus(rep):
@@ -815,10 +828,17 @@ def corpus(rep):
         rep.evaluations += 1
         rep.nontrivial('corpus:shuffle:' + opname)
         got = [(type(p_).__name__, getattr(p_, '_geometry', None)) for p_ in parts]
-        if any(g != ('GeoDataFrame', 'b') for g in got) or r._meta._geometry != 'b':
+        cxrows = None
+        if opname == 'DSortValues':
+            try:
+                cxrows = sorted(r.cx[5.5:8.5, 0.5:3.5].compute(scheduler='synchronous')['v'].tolist())
+            except Exception as e:  # noqa: BLE001
+                cxrows = f'{type(e).__name__}: {str(e)[:80]}'
+        if any(g != ('GeoDataFrame', 'b') for g in got) or r._meta._geometry != 'b' or \
+                (opname == 'DSortValues' and cxrows != [1, 1, 4]):
             rep.violation('dask-state:' + opname,
                           f'{opname[1:]} with a real shuffle: partitions are not GeoDataFrames with the active column',
-                          {'partitions': got, 'meta': r._meta._geometry,
+                          {'partitions': got, 'meta': r._meta._geometry, 'cx_rows': cxrows,
                            'repro': "dd.from_pandas(GeoDataFrame({'a':..,'v':[3,1,4,1,5,9,2,6],'b':..}).set_geometry('b'), 2)"
                                     ".sort_values('v') -> partitions"})
     m = ddf.map_partitions(lambda d: d)
